@@ -24,6 +24,11 @@ CLAIMS = {
                      'checked by TLC on every list observation of NetworkPolicy and admin-policy worlds.', ref='6/C05'),
     'C14': dict(tech='edge laws (Laws.tla) attached to Cluster.tla actions: TLC checks them on the reference (LawsCheck) and ReplayTrace asserts them on the two real reports of every edge',
                 text='Additivity, locality and re-spelling invariance asserted oracle-free on pairs of real reports for every AddRule/AddPolicy/Respell*/Split* edge of TLC-generated behaviours; the laws themselves are TLC-checked consequences of the reference.', ref='6/C14'),
+    'C15': dict(tech='TLA+ model of the engine as current objects (EngineModel.tla) + history generator (Engine.tla: TLC random walks and exhaustive short histories) replayed on a real eval.PolicyEngine; recorded histories validated by TLC (EngineTrace.tla) against the model and against a fresh engine',
+                text='Every CheckIfAllowed reply after every update of every explored history equals (a) the reference semantics on the current abstract objects and (b) the reply of a fresh engine built from the same objects; '
+                     'operation outcomes (ok/error/no crash) equal the model; all histories of 3 (quick) / 4 (thorough) operations over a 13-operation catalogue after a cache-warming prefix are enumerated exhaustively, '
+                     'long random walks and seeded random histories over a larger universe are sampled.', ref='6/C15',
+                note='Trusted: TLC, Json module, EngineModel.tla as the reading of "current objects"; hook VerifSnapshot (read-only) for cache statistics and the order of sortedAdminNetpols. LRU eviction and goroutine-concurrent use are out of scope.'),
     'C17': dict(tech='ReExpressWorkload action of Cluster.tla (8 kinds, replicas, bare pods with one owner) with the law "report equal modulo [Kind]" on real reports, plus the per-state peer-set predicate',
                 text='For every re-expression edge the two real reports are equal per abstract workload; in every state the returned peers are exactly one per workload.', ref='6/C17'),
 }
